@@ -296,6 +296,7 @@ def run_shard(ctx):
         ctx.count('big_programs')
         one_program(ctx, gen.render_program(prog), rng, [{}])
     stateful_converter(ctx)
+    falsy_converter(ctx)
     block_converter(ctx, rng)
     # symbols without an equation contribute variables but no code
     import fsic
@@ -349,6 +350,42 @@ def stateful_converter(ctx):
         if conv.calls - before != 8:
             ctx.violation('converter-calls', f'build {rep}: converter called {conv.calls - before} times for 2 equations x 2 builds x 2 templates, expected 8', case)
             return
+
+
+def falsy_converter(ctx):
+    """A converter is whatever callable the caller passes - including an object that is 'false' when handed over (a recording list
+    with __call__, empty until its first call; an object with __bool__ / __len__): it is called once per equation-carrying symbol and
+    its output inserted."""
+    import fsic
+
+    class Recording(list):
+        def __call__(self, s):
+            self.append(s.name)
+            return s.code + '\n_marker = 1'
+
+    class Never:
+        calls = 0
+
+        def __bool__(self):
+            return False
+
+        def __call__(self, s):
+            type(self).calls += 1
+            return s.code + '\n_marker = 1'
+
+    symbols = fsic.parse_model('Y = X + 1\nZ = Y[-1] * 2')
+    for kind, mk, count in (('empty list subclass', Recording, lambda c: len(c)), ('__bool__ False', Never, lambda c: Never.calls)):
+        for typed in (True, False):
+            for route in ('build_model', 'build_model_definition'):
+                conv = mk()
+                Never.calls = 0
+                case = {'kind': 'falsy-converter', 'converter': kind, 'typed': typed, 'route': route}
+                ctx.evaluation(('falsy-converter', kind, typed, route), nontrivial=True, sample=case)
+                text = fsic.build_model(symbols, converter=conv, with_type_hints=typed).CODE if route == 'build_model' else fsic.build_model_definition(symbols, converter=conv, with_type_hints=typed)
+                ctx.count('converter_calls_observed', count(conv))
+                if count(conv) != 2 or text.count('_marker = 1') != 2:
+                    ctx.violation('converter-calls', f'{route} with a converter object that is false when passed ({kind}): called {count(conv)} time(s), its output inserted {text.count("_marker = 1")} time(s); expected 2 and 2', case)
+                    return
 
 
 def block_converter(ctx, rng):
